@@ -194,6 +194,10 @@ def singleLt (x y : Blk × PKey) : Bool :=
   else if x.1.2 != y.1.2 then decide (x.1.2 < y.1.2)
   else false
 
+/-- `sorted()` must compare a block of a parent-less receiver (key `""`) with a block whose parent has no id
+    (key `None`): `"" < None` raises TypeError.  (Only reachable in the one-sided corner F-C19j.) -/
+def idsIncomparable (pa pb : PKey) : Bool := pa.isEmpty && !pb.isEmpty && (parentId pb).isNone
+
 /-- `sorted(blocks)` (stable, uses `<` only) -/
 def sortSingles (l : List (Blk × PKey)) : List (Blk × PKey) := l.mergeSort (fun x y => !singleLt y x)
 
@@ -217,6 +221,7 @@ def unionP (a b : PLoc) : R PLoc :=
       if la.strand ≠ lb.strand then throw .ValueError
       if !a.2.isEmpty then requireParentsEq a.2 b.2
       -- `_union_compound_interval`
+      if idsIncomparable a.2 b.2 then throw .TypeError
       mergeBlocks (sortSingles (la.blocks.map (fun x => (x, a.2)) ++ lb.blocks.map (fun x => (x, b.2)))) la.strand
   | _, .empty => throw .EmptyLocation     -- `self.strand != other.strand` evaluates `EmptyLocation.strand`
 
